@@ -1,6 +1,7 @@
 package main
 
 import (
+	"golang.org/x/tools/go/ssa"
 	"context"
 	"flag"
 	"fmt"
@@ -32,6 +33,8 @@ func main() {
 		os.Exit(cmdLedger(os.Args[2:]))
 	case "list":
 		cmdList(os.Args[2:])
+	case "why":
+		cmdWhy(os.Args[2:])
 	default:
 		usage()
 	}
@@ -180,5 +183,52 @@ func cmdList(args []string) {
 		fc := g.cs.Funcs[id]
 		_, ok := g.fnByID[id]
 		fmt.Printf("%-80s props=%v found=%v\n", shortID(id), fc.Props, ok)
+	}
+}
+
+// cmdWhy: which functions reachable from <fn> write <key> directly (frame debugging).
+func cmdWhy(args []string) {
+	if len(args) < 2 {
+		fmt.Fprintln(os.Stderr, "usage: rainvc why <function substring> <key substring>")
+		os.Exit(2)
+	}
+	g, err := loadGlobal("/repo")
+	if err != nil {
+		fmt.Fprintln(os.Stderr, err)
+		os.Exit(2)
+	}
+	g.buildFrames()
+	for _, start := range g.allFns {
+		if !strings.Contains(start.String(), args[0]) {
+			continue
+		}
+		fmt.Println("from", start.String())
+		seen := map[*ssa.Function]*ssa.Function{start: nil}
+		queue := []*ssa.Function{start}
+		for len(queue) > 0 {
+			f := queue[0]
+			queue = queue[1:]
+			for k := range g.direct[f] {
+				if strings.Contains(k, args[1]) {
+					path := []string{}
+					for x := f; x != nil; x = seen[x] {
+						path = append(path, x.String())
+					}
+					fmt.Println("  ", k, "written by", strings.Join(path, " <- "))
+				}
+			}
+			if node := g.cg.Nodes[f]; node != nil {
+				for _, e := range node.Out {
+					c := e.Callee.Func
+					if c == nil || isPurePkg(fnPkgPath(c)) || isAtomicFn(c) {
+						continue
+					}
+					if _, ok := seen[c]; !ok {
+						seen[c] = f
+						queue = append(queue, c)
+					}
+				}
+			}
+		}
 	}
 }
